@@ -17,20 +17,25 @@ REDIRPATS = [b"^go/(.*)$", b"^old$", b"^(\\w+)/(\\d+)$", b"^a(.)(.)", b"^$", b"(
 TEMPLATES = [b"/new/%1", b"/%2/%1", b"%1%1", b"/fixed", b"/p/%1/%3", b"/n/%1/%2", b"http://h/%1?q=%1"]
 
 
-def rand_node(rng, depth, ids, refuse_ok):
+def rand_node(rng, depth, ids, refuse_ok, pool=None):
     mws = []
+    pool = [] if pool is None else pool        # middleware objects created so far in this tree: (id, flag)
     for _ in range(rng.range(0, 3 if refuse_ok else 1)):
+        if refuse_ok and pool and rng.chance(1, 5):
+            mws.append(list(rng.choice(pool)))  # an object that is already attached elsewhere in the tree (an ancestor, a sibling's subtree)
+            continue
         ids[0] += 1
         # refusal style of the instrumented middleware: id < 1000 complete 403, 1000.. nothing written, 2000.. own fragment, no close
         style = rng.choice([0, 0, 1000, 2000]) if refuse_ok else 0
         mws.append([style + ids[0], (rng.choice([0, 2, 2]) if (refuse_ok and rng.chance(1, 2)) else 1)])
+        pool.append(list(mws[-1]))
     if refuse_ok and len(mws) >= 2 and rng.chance(1, 4):
         mws.append(list(mws[0]))         # the same middleware OBJECT attached again behind the others (same id = same object)
     redirs = [[rng.choice(REDIRPATS), rng.choice(TEMPLATES)] for _ in range(rng.range(0, 3) if rng.chance(2, 3) else 0)]
     subs = []
     if depth > 0:
         for _ in range(rng.range(0, 3)):
-            subs.append([rng.choice(SUBPATS), rand_node(rng, depth - 1, ids, refuse_ok)])
+            subs.append([rng.choice(SUBPATS), rand_node(rng, depth - 1, ids, refuse_ok, pool)])
     ids[1] += 1
     return [mws, redirs, subs, rng.choice([0, 1, 1, 2, 3]), ids[1]]
 
